@@ -57,6 +57,7 @@ type storedSpec struct {
 	swr, sie       string
 	dateSkew       int64 // Date = now + skew
 	noDate         bool
+	splitCC        bool // the directives on two Cache-Control field lines (several lines are one list)
 	badFirstCCLine bool // a Cache-Control line with an unterminated quoted-string in front of the real one
 	zeroDate       bool // Date: Mon, 01 Jan 0001 00:00:00 GMT (Go's zero time, a valid HTTP-date of a response two millennia old)
 	delayNs        int64
@@ -129,6 +130,10 @@ func (g *G) genStored(focus string) storedSpec {
 	if g.chance(0.2) {
 		s.delayNs = pick(g, int64(1), sec, 2*sec, 3*sec+1)
 	}
+	// any order: which of two occurrences of a directive comes first is meaning (first occurrence; an
+	// unqualified no-cache behind a qualified one still demands validation)
+	g.r.Shuffle(len(s.flags), func(i, j int) { s.flags[i], s.flags[j] = s.flags[j], s.flags[i] })
+	s.splitCC = g.chance(0.12)
 	s.extra = Hdr{{"X-Secret", "s3"}, {"X-Other", "o"}}
 	if g.chance(0.1) {
 		// an origin (or an inner cache of the same kind) that sends the cache's own status fields
@@ -163,7 +168,15 @@ func (s storedSpec) reply(atNs int64, body string) Reply {
 		if s.badFirstCCLine {
 			h = append(h, [2]string{"Cache-Control", `x="unterminated`})
 		}
-		h = append(h, [2]string{"Cache-Control", ccJoin(cc)})
+		if s.splitCC && len(cc) >= 2 {
+			cut := 1 + len(cc)/2
+			if s.maxAge != "" {
+				cut = 1 // the first max-age alone on the first line, everything else (a second max-age too) on the next
+			}
+			h = append(h, [2]string{"Cache-Control", ccJoin(cc[:cut])}, [2]string{"Cache-Control", ccJoin(cc[cut:])})
+		} else {
+			h = append(h, [2]string{"Cache-Control", ccJoin(cc)})
+		}
 	}
 	switch s.expiresOff {
 	case "":
@@ -340,7 +353,13 @@ func (g *G) ccLines(cc []string) Hdr {
 	if g.chance(0.04) {
 		// a malformed field line (a quoted-string that never ends) in front of well-formed ones: a quoted-string
 		// cannot extend over field lines, so the later lines say what they say
-		return append(Hdr{{"Cache-Control", pick(g, `x="unterminated`, `b"`, `x="a\`)}}, Hdr{{"Cache-Control", ccJoin(cc)}}...)
+		bad := pick(g, `x="unterminated`, `b"`, `x="a\`)
+		if g.chance(0.5) {
+			// … and the same text on ONE line, where the quoted-string does swallow what follows: the two forms
+			// read differently although their lines join to the same text (a parse keyed by the joined text is wrong)
+			return Hdr{{"Cache-Control", bad + "," + ccJoin(cc)}}
+		}
+		return append(Hdr{{"Cache-Control", bad}}, Hdr{{"Cache-Control", ccJoin(cc)}}...)
 	}
 	if len(cc) < 2 || !g.chance(0.3) {
 		return Hdr{{"Cache-Control", ccJoin(cc)}}
